@@ -66,9 +66,9 @@ pub fn check_record(record: &str, shredder: bool) -> Result<bool, Failure> {
 
 pub fn run(ctx: &Ctx) -> Report {
     let mut rep = Report::new(ctx);
-    rep.rule = "Every position along generated histories (DFRC, seed FENs, constructed boards with inner-file rights, EP files, clocks at caps): {:#} text parses back via from_fen(true) and FromStr to an equal board (==, hash, checkers, pins, clocks); {} text likewise when all rights are on a/h; both texts equal the reference formatter applied to the accessor view character for character; consecutive boards of the walk, clock-modified copies, rebuilt copies and null-move results are compared as pairs: (a == b) == (text(a) == text(b)). Independently, canonical records written by the REFERENCE formatter for constructed states are parsed and formatted: the record must be reproduced exactly. Non-trivial = board with a right on an inner file, an EP file, or a clock at its cap; distinct by text hash.".into();
+    rep.rule = "Every position along generated histories (DFRC, seed FENs, constructed boards with inner-file rights, EP files, clocks at caps): {:#} text parses back via from_fen(true) and FromStr to an equal board (==, hash, checkers, pins, clocks); {} text likewise when all rights are on a/h; both texts equal the reference formatter applied to the accessor view character for character; consecutive boards of the walk, clock-modified copies, rebuilt copies and null-move results are compared as pairs: (a == b) == (text(a) == text(b)). Boards built from edited (near-invalid) builder states, when accepted, go through the same round-trip and canonical-text checks. Independently, canonical records written by the REFERENCE formatter for constructed states are parsed and formatted: the record must be reproduced exactly. Non-trivial = board with a right on an inner file, an EP file, or a clock at its cap; distinct by text hash.".into();
     rep.assumptions = vec!["reference to_fen() defines the canonical record (order: white short, white long, black short, black long; EP square on the passed rank; decimal clocks)".into()];
-    rep.required_classes = vec!["inner-file-right", "ep-file-set", "clock-at-cap", "plain-expressible", "pair-equal", "pair-different", "record-accepted-shredder", "record-accepted-plain"];
+    rep.required_classes = vec!["inner-file-right", "ep-file-set", "clock-at-cap", "plain-expressible", "pair-equal", "pair-different", "record-accepted-shredder", "record-accepted-plain", "accepted-edited-state"];
     rep.add(run_prop(
         ctx,
         "walk",
@@ -123,6 +123,26 @@ pub fn run(ctx: &Ctx) -> Report {
             })
         },
     ));
+    // boards built from edited (near-invalid) builder states: whatever the library accepts must round-trip
+    rep.add(run_prop(ctx, "edited-states", ctx.tier.scale(200_000, 25), crate::gen2::arb_edited_state, |es: &crate::gen2::EditedState, st: &mut Stats| {
+        let state = es.state();
+        let Some(b) = build(&state) else {
+            st.count("rejected-by-library", 1);
+            return Ok(());
+        };
+        let p = pos_of_board(&b);
+        if !well_formed(&b, &p) {
+            return Ok(());
+        }
+        st.eval(1);
+        st.class("accepted-edited-state");
+        let origin = format!("bstate:{}", state.text());
+        let v = Visit { board: &b, pos: &p, step: &Step::Start, hist: &[], origin: &origin };
+        if p.ep.is_some() || !p.plain_fen_expressible() || p.hm >= 100 || p.fm >= 65535 {
+            st.nontrivial(fnv(state.text().as_bytes()));
+        }
+        check_board(&v)
+    }));
     rep.add(run_prop(ctx, "records", ctx.tier.scale(200_000, 25), || (arb_ingredients(), any::<bool>()), |(ing, shredder): &(Ingredients, bool), st: &mut Stats| {
         let state = assemble(ing);
         let Some(p) = state.to_pos() else { return Ok(()) };
